@@ -6,5 +6,5 @@ CONSTANTS
     MaxOps = 30
     MaxBlocks = 8
     MaxDepth = 3
-    MaxFail = 0
+    MaxFail = 2
 CHECK_DEADLOCK FALSE
